@@ -73,7 +73,16 @@ func genTagValue(g G) string {
 			b[i] = "=/,+"[g.Intn(4)]
 		}
 	}
-	return string(b)
+	v := string(b)
+	if g.Pct(30) {
+		// tag values are UTF-8 text (display names, reasons): characters of two,
+		// three and four bytes anywhere, also right behind an escape
+		for k := g.Range(1, 4); k > 0; k-- {
+			at := g.Intn(len(v) + 1)
+			v = v[:at] + []string{"\u00e9", "\u00df", "\u65e5\u672c", "\U0001F60A", "\u0085", "\u00a0"}[g.Intn(6)] + v[at:]
+		}
+	}
+	return v
 }
 
 func genParam(g G, first bool) string {
